@@ -285,10 +285,55 @@ pub fn roundtrip(args: &[String]) -> String {
 
 // pipeline <text>: parse + infoset + compact print + pretty print, in both DOM views (property C03)
 //   outcome class only: ok | rest | err      (a panic is reported by the dispatcher as `panic`)
+// every property of the information set that is COMPUTED when asked for (XML Information Set 2.1 - 2.11): [notations],
+// [unparsed entities], [references] and [attribute type] of every attribute, the namespace properties of every element - the
+// results are dropped, what counts is that asking returns (round-9 seed C03-M: `unparsed_entities()` took an external parsed
+// entity for an unparsed one and unwrapped its missing notation)
+fn touch_infoset(text: &str) {
+    let tree = match xml_parser::document(text) {
+        Ok((_, t)) => t,
+        Err(_) => return,
+    };
+    let doc = match info::XmlDocument::new(&tree) {
+        Ok(d) => d,
+        Err(_) => return,
+    };
+    fn walk(el: &info::XmlNode<info::XmlElement>, depth: usize) -> usize {
+        if depth > 2000 {
+            return 0;
+        }
+        let elb = el.borrow();
+        let mut n = 1;
+        for a in elb.namespace_attributes().iter().chain(elb.attributes().iter()) {
+            let a = a.borrow();
+            n += a.references().map(|_| 1).unwrap_or(0);
+            n += a.normalized_value().map(|v| v.len()).unwrap_or(0);
+            std::hint::black_box((a.attribute_type(), a.specified(), a.namespace_name().is_ok(), a.owner_element().is_ok()));
+        }
+        n += elb.in_scope_namespace().map(|s| s.iter().count()).unwrap_or(0);
+        std::hint::black_box((Element::namespace_name(&*elb).is_ok(), Element::base_uri(&*elb).len()));
+        for k in elb.children().iter() {
+            if let info::XmlItem::Element(c) = &*k {
+                n += walk(c, depth + 1);
+            }
+        }
+        n
+    }
+    let d = doc.borrow();
+    let mut n = d.unparsed_entities().iter().count();
+    n += d.notations().map(|s| s.iter().count()).unwrap_or(0);
+    std::hint::black_box((Document::base_uri(&*d).len(), d.all_declarations_processed(), d.standalone(), d.version().map(|v| v.len())));
+    if let Ok(root) = d.document_element() {
+        n += walk(&root, 0);
+    }
+    std::hint::black_box(n);
+}
+
 pub fn pipeline(args: &[String]) -> String {
     use xml_dom::PrettyPrint;
     let text = args.first().cloned().unwrap_or_default();
     let mut class = "err";
+    touch_infoset(&text);
     for expanded in [false, true] {
         match XmlDocument::from_raw_with_context(&text, xml_dom::Context::from_text_expanded(expanded)) {
             Ok((rest, dom)) => {
